@@ -87,6 +87,11 @@ type View struct {
 // GViewOf projects a stored grant.
 func GViewOf(a authgrants.Authgrant) GView { return gviewOf(a) }
 
+// String prints a grant without raw control bytes (commands may hold any byte).
+func (g GView) String() string {
+	return fmt.Sprintf("{type=%d [%d,%d) cmd=%q}", g.Type, g.Start, g.Exp, g.Cmd)
+}
+
 func gviewOf(a authgrants.Authgrant) GView {
 	return GView{Type: byte(a.GrantType), Start: a.StartTime.Unix(), Exp: a.ExpTime.Unix(),
 		Cmd: a.AssociatedData.CommandGrantData.Cmd, Prin: uint32(a.PrincipalID)}
